@@ -16,6 +16,146 @@ import (
 	"github.com/welllog/golib/mapz"
 )
 
+type snap struct {
+	Ev       string `json:"ev"`
+	Op       string `json:"op"`
+	Versions []int  `json:"versions"`
+	N        int    `json:"n"`
+	Keys     int    `json:"keys"`
+}
+
+// snapshots: a writer re-versions every key atomically through Map(fn) while readers take snapshots of hundreds of keys
+func snapshots(rng *rand.Rand, emit func(snap)) {
+	keys := []int{300, 1000}[rng.Intn(2)]
+	kv := mapz.NewSafeKV[int, int](0)
+	for k := 0; k < keys; k++ {
+		kv.Set(k, 1)
+	}
+	var stop int32
+	var wg sync.WaitGroup
+	wg.Add(1)
+	go func() {
+		defer wg.Done()
+		for v := 2; atomic.LoadInt32(&stop) == 0 && v < 1<<20; v++ {
+			ver := v
+			kv.Map(func(m mapz.KV[int, int]) {
+				for k := range m {
+					m[k] = ver
+				}
+			})
+		}
+	}()
+	distinct := func(vals []int) []int {
+		set := map[int]bool{}
+		for _, v := range vals {
+			set[v] = true
+		}
+		out := []int{}
+		for v := range set {
+			out = append(out, v)
+		}
+		sort.Ints(out)
+		if len(out) > 4 {
+			out = out[:4]
+		}
+		return out
+	}
+	var mu sync.Mutex
+	var rw sync.WaitGroup
+	for r := 0; r < 3; r++ {
+		rw.Add(1)
+		go func(r int) {
+			defer rw.Done()
+			for i := 0; i < 40; i++ {
+				var vals []int
+				op := []string{"GetWithMap", "Values", "Range"}[(i+r)%3]
+				switch op {
+				case "GetWithMap":
+					req := make(map[int]int, keys)
+					for k := 0; k < keys; k++ {
+						req[k] = -1
+					}
+					kv.GetWithMap(req)
+					for _, v := range req {
+						vals = append(vals, v)
+					}
+				case "Values":
+					vals = kv.Values()
+				default:
+					kv.Range(func(k, v int) bool { vals = append(vals, v); return true })
+				}
+				mu.Lock()
+				emit(snap{Ev: "Snapshot", Op: op, Versions: distinct(vals), N: len(vals), Keys: keys})
+				mu.Unlock()
+			}
+		}(r)
+	}
+	rw.Wait()
+	atomic.StoreInt32(&stop, 1)
+	wg.Wait()
+}
+
+// hotKeys: a handful of keys, each written by one owner that reads its own write back at once, while several readers
+// hammer the same keys (whatever a Get leaves behind for later Gets is exposed); same trace format as the large maps
+func hotKeys(rng *rand.Rand, emit func(bev)) {
+	w := 2 + rng.Intn(2)
+	kv := mapz.NewSafeKV[int, int](0)
+	logs := make([][]bev, w)
+	var stop int32
+	var rwg, wg sync.WaitGroup
+	for rd := 0; rd < 5; rd++ {
+		rwg.Add(1)
+		go func(rd int) {
+			defer rwg.Done()
+			for i := 0; atomic.LoadInt32(&stop) == 0; i++ {
+				kv.Get(1 + (i+rd)%w)
+			}
+		}(rd)
+	}
+	for id := 0; id < w; id++ {
+		wg.Add(1)
+		go func(id int, rng *rand.Rand) {
+			defer wg.Done()
+			k := 1 + id
+			for i := 1; i <= 1500; i++ {
+				switch rng.Intn(8) {
+				case 0:
+					kv.Delete(k)
+					logs[id] = append(logs[id], bev{Ev: "Delete", K: k})
+				case 1:
+					logs[id] = append(logs[id], bev{Ev: "SetX", K: k, V: i, R: kv.SetX(k, i)})
+				default:
+					kv.Set(k, i)
+					logs[id] = append(logs[id], bev{Ev: "Set", K: k, V: i})
+				}
+				v, ok := kv.Get(k)
+				if !ok {
+					v = 0
+				}
+				logs[id] = append(logs[id], bev{Ev: "Get", K: k, R: v})
+			}
+		}(id, rand.New(rand.NewSource(rng.Int63())))
+	}
+	wg.Wait()
+	atomic.StoreInt32(&stop, 1)
+	rwg.Wait()
+	emit(bev{Ev: "Reset", N: w})
+	for _, l := range logs {
+		for _, e := range l {
+			emit(e)
+		}
+	}
+	keys := kv.Keys()
+	sort.Ints(keys)
+	pairs := [][]int{}
+	for _, k := range keys {
+		v, _ := kv.Get(k)
+		pairs = append(pairs, []int{k, v})
+	}
+	ln := kv.Len()
+	emit(bev{Ev: "Final", Len: &ln, Pairs: pairs})
+}
+
 type bev struct {
 	Ev    string      `json:"ev"`
 	K     int         `json:"k,omitempty"`
@@ -48,6 +188,21 @@ func bulkMain(args []string) {
 		logs := make([][]bev, w)
 		var wg, phase2 sync.WaitGroup
 		var done0 int32
+		// readers of everybody's keys run alongside the owners (their results are not judged): anything a Get leaves
+		// behind for later Gets (caches) is exposed to the owners' own Set-then-Get checks
+		var rstop int32
+		var rwg sync.WaitGroup
+		for rd := 0; rd < 3; rd++ {
+			rwg.Add(1)
+			go func(rng *rand.Rand) {
+				defer rwg.Done()
+				for atomic.LoadInt32(&rstop) == 0 {
+					k := 1 + rng.Intn(n)
+					kv.Get(k)
+					kv.Has(k)
+				}
+			}(rand.New(rand.NewSource(rng.Int63())))
+		}
 		phase2.Add(w)
 		for id := 0; id < w; id++ {
 			wg.Add(1)
@@ -122,6 +277,11 @@ func bulkMain(args []string) {
 					case 0:
 						kv.Set(k, val)
 						lg(bev{Ev: "Set", K: k, V: val})
+						v, ok := kv.Get(k) // the owner reads its own write back at once
+						if !ok {
+							v = 0
+						}
+						lg(bev{Ev: "Get", K: k, R: v})
 					case 1:
 						lg(bev{Ev: "SetX", K: k, V: val, R: kv.SetX(k, val)})
 					default:
@@ -136,6 +296,8 @@ func bulkMain(args []string) {
 			}(id, rand.New(rand.NewSource(rng.Int63())))
 		}
 		wg.Wait()
+		atomic.StoreInt32(&rstop, 1)
+		rwg.Wait()
 		enc.Encode(bev{Ev: "Reset", N: n})
 		events++
 		for _, l := range logs {
@@ -192,6 +354,8 @@ func bulkMain(args []string) {
 		}
 		atomic.StoreInt32(&stop, 1)
 		wg2.Wait()
+		snapshots(rng, func(e snap) { enc.Encode(e); events++ })
+		hotKeys(rng, func(e bev) { enc.Encode(e); events++ })
 	}
 	st, _ := json.Marshal(map[string]int{"scenarios": *rounds, "events": events})
 	os.WriteFile(*out+"/bulk_stats.json", st, 0o644)
